@@ -156,6 +156,13 @@ pub fn check(b: &Bound, c: &Case) -> Result<Option<String>, String> {
         build_result_archive(sets, epath.to_str().unwrap(), b.bn.to_string().as_str(), vec![]).map_err(|e| e.to_string())?;
         ctx_sets = ctx.iter().map(|(l, m)| (l.clone(), mk(&g, l, m))).collect();
     }
+    // odd layouts: the output path already holds a (much longer) result archive of an earlier run on another model
+    if c.with_out && c.layout % 2 == 1 {
+        let other = BooleanNetwork::try_from("zz_old -| zz_old\n$zz_old: !zz_old\n").map_err(|e| e.to_string())?;
+        let go = get_extended_symbolic_graph(&other, 1)?;
+        let old: HashMap<String, GraphColoredVertices> = (0..200).map(|i| (format!("formula-{i}"), if i % 2 == 0 { go.mk_unit_colored_vertices() } else { go.mk_empty_colored_vertices() })).collect();
+        build_result_archive(old, opath.to_str().unwrap(), other.to_string().as_str(), (0..200).map(|i| format!("OLD FORMULA {i}")).collect()).map_err(|e| e.to_string())?;
+    }
     let mut args: Vec<String> = vec![mpath.to_str().unwrap().into(), fpath.to_str().unwrap().into(), "-p".into(), c.print.clone()];
     if c.with_out {
         args.push("-o".into());
@@ -635,7 +642,7 @@ pub fn run(tier: &str) -> Result<Report, String> {
     rep.set("failure_configurations", json!(failures));
     rep.sample(json!({"network": "con2", "format": "sbml", "layout": 6, "print": "exhaustive", "-o": true, "formulae": plain_lists[1]}));
     rep.sample(json!({"formula_file_layout_6": formula_file(&plain_lists[2], 6)}));
-    rep.rule = format!("the hctl-model-checker binary built from the working tree is executed on {which:?} x model format (aeon, bnet, sbml where the format reproduces the network) x {LAYOUTS} formula-file layouts (comments, blank lines, surrounding blanks/tabs, CRLF, no final newline, mixed) x 4 print options x with/without -o x 4 plain + 2 extended formula lists, plus context archives whose sets are not confined to the valid colours (whole symbolic space, a raw state variable) on constrained networks, plus wide synthetic models (60 / 70 variables: counts beyond 2^53 and 2^64 must be printed as the library's numbers), plus four networks whose variable names are unusual as data (Ca_extra_cell / b_extra_1, x / xx, a / ab, EF1 / TRUE) with five formulae each, plus 24 single-operator formula files (each unary / binary / hybrid operator and pattern in a file of its own) (context archive with labels p, d, dom_1 written for the k the tool derives), plus context archives written for k-1, k+1, k+2 and 20 failure configurations, each under the default and under every print option (7 of them formula files that cannot be read or parsed completely: the tool must report a problem or evaluate every formula, never a silent prefix, and every result block it does print must carry the numbers of its own formula). Compared: order and text of Formula blocks, printed result/colour/state counts vs exact counts of the library's sets, exhaustive state listing, archive entry list, formulae.txt, every archived BDD vs model_check_multiple_(extended_)formulae_dirty; failures must produce a message and no crash. distinct_nontrivial = executed configurations");
+    rep.rule = format!("the hctl-model-checker binary built from the working tree is executed on {which:?} x model format (aeon, bnet, sbml where the format reproduces the network) x {LAYOUTS} formula-file layouts (comments, blank lines, surrounding blanks/tabs, CRLF, no final newline, mixed) x 4 print options x with/without -o (for odd layouts the output path already holds a much longer result archive of an earlier run on another model) x 4 plain + 2 extended formula lists, plus context archives whose sets are not confined to the valid colours (whole symbolic space, a raw state variable) on constrained networks, plus wide synthetic models (60 / 70 variables: counts beyond 2^53 and 2^64 must be printed as the library's numbers), plus four networks whose variable names are unusual as data (Ca_extra_cell / b_extra_1, x / xx, a / ab, EF1 / TRUE) with five formulae each, plus 24 single-operator formula files (each unary / binary / hybrid operator and pattern in a file of its own) (context archive with labels p, d, dom_1 written for the k the tool derives), plus context archives written for k-1, k+1, k+2 and 20 failure configurations, each under the default and under every print option (7 of them formula files that cannot be read or parsed completely: the tool must report a problem or evaluate every formula, never a silent prefix, and every result block it does print must carry the numbers of its own formula). Compared: order and text of Formula blocks, printed result/colour/state counts vs exact counts of the library's sets, exhaustive state listing, archive entry list, formulae.txt, every archived BDD vs model_check_multiple_(extended_)formulae_dirty; failures must produce a message and no crash. distinct_nontrivial = executed configurations");
     rep.assumptions.push("counts are compared with exact cardinalities computed from the point-wise read-back of the library's sets on valid colours".into());
     Ok(rep)
 }
